@@ -59,7 +59,7 @@ func pick(t *simkit.Tape, xs []string) string {
 
 func (g *exprGen) ws() string {
 	if g.t.Bool(1, 10) {
-		return " "
+		return []string{" ", "\t", "\n", "  ", "\r\n"}[g.t.Pick(6, 2, 2, 1, 1)]
 	}
 	return ""
 }
